@@ -435,7 +435,9 @@ Definition morsels_char (c : N) : list (str * str) := [].
 Inductive codec :=
 | CodecOk          (* None, or a text codec Python knows, or the payload is empty (no lookup at all) *)
 | CodecUnknown     (* LookupError: unknown name, or not a text encoding (base64, hex, ...) *)
-| CodecRaises.     (* the codec exists and decode raises something else: undefined, idna, punycode *)
+| CodecRaises      (* the codec exists and decode raises a UnicodeError: undefined, idna, punycode *)
+| CodecBadName.    (* the NAME is refused before any lookup: a NUL character in the charset gives
+                      ValueError (embedded null character), neither a LookupError nor a UnicodeError *)
 
 (* what matters of an interaction for reaching the file *)
 Record inter := {
@@ -463,11 +465,11 @@ Definition entry_raises_old (w : wconf) (i : inter) : bool :=
   end.
 (* NOW: the HAR writer takes the query string by partition and never parses the URL; the VCR writer
    falls back to utf8 on LookupError (cassettes.py:183-188); only a codec that raises something else
-   still kills the thread *)
+   (UnicodeError of the codec, ValueError for a name with a NUL character) still kills the thread *)
 Definition entry_raises (w : wconf) (i : inter) : bool :=
   match w_fmt w with
   | HAR => existsb cookie_error (flat_map pieces_now (seen_cookies (w_sanitize w) i))      (* 434: _extract_cookies, uncaught *)
-  | VCR => negb (w_preserve w) && i_response i && match i_codec i with CodecRaises => true | _ => false end
+  | VCR => negb (w_preserve w) && i_response i && match i_codec i with CodecRaises | CodecBadName => true | _ => false end
   end.
 (* sentinel: the same with the comprehension iterating over header values instead of characters *)
 Definition entry_raises_whole (w : wconf) (i : inter) : bool :=
@@ -904,10 +906,14 @@ Definition cevent_of (fwd : forward_rule) (e : fevent) : cevent :=
 (* executor._execute: ctx.on_event first (Statistic, whatever the handler does), then JunitXMLHandler.handle_event.
    For a FAILURE event add_failure (junitxml.py:44-57) renders EVERY group stored under the label with
    format_failures, which reads response.text = content.decode(encoding or utf-8) (core/failures.py:306,
-   core/transport.py:92-93) and catches UnicodeDecodeError only: an unknown codec (LookupError) or a codec that
-   raises something else (undefined: UnicodeError) escapes, _execute re-raises, the run aborts (Internal Error).
+   core/transport.py:92-93) inside a try.  Which exceptions of response.text that try catches is a parameter
+   (catch_rule).  The code as it is since 22e8a9e1 catches (UnicodeError, LookupError) and prints <BINARY>:
+   an unknown codec (LookupError) and a codec that raises (undefined: UnicodeError) no longer leave the handler.
+   What still escapes is the ValueError Python raises for a charset NAME with a NUL character (CodecBadName):
+   _execute re-raises, the run aborts (Internal Error).  Before 22e8a9e1 only UnicodeDecodeError was caught
+   (catches_decode_error_only, regression sentinel): every codec problem aborted the run.
    The group of a case keeps the response of that case, so the handler state carries the ids of the cases whose
-   response text cannot be decoded (bad). *)
+   response text escapes the try (bad). *)
 Definition recorder_of (e : sf_event) : recorder := {| r_label := sf_rlabel e; r_cases := sf_cases e |}.
 Definition jevent_of (e : fevent) : event :=
   match e with
@@ -916,18 +922,37 @@ Definition jevent_of (e : fevent) : event :=
   | FEngineFinished => EngineFinished
   | FOther => OtherEvent
   end.
-(* response.text raises something that is not UnicodeDecodeError (CodecOk covers the empty payload: <EMPTY>, no decode) *)
-Definition text_raises (i : inter) : bool := i_response i && match i_codec i with CodecOk => false | _ => true end.
-Definition bad_ids (e : sf_event) : list N := map i_id (filter text_raises (sf_inters e)).
+(* what response.text raises for a non-empty payload, when it is not a UnicodeDecodeError of a known codec
+   (that one is caught by every rule and shown as <BINARY>; CodecOk also covers the empty payload: <EMPTY>, no decode) *)
+Inductive text_exn := ExLookup | ExUnicode | ExValue.
+Definition text_exn_of (i : inter) : option text_exn :=
+  if i_response i then
+    match i_codec i with
+    | CodecOk => None
+    | CodecUnknown => Some ExLookup       (* LookupError: unknown encoding *)
+    | CodecRaises => Some ExUnicode       (* UnicodeError that is not a UnicodeDecodeError: undefined encoding *)
+    | CodecBadName => Some ExValue        (* ValueError: embedded null character *)
+    end
+  else None.
+(* the except clause around response.text in format_failures *)
+Definition catch_rule := text_exn -> bool.
+(* NOW (22e8a9e1): except (UnicodeError, LookupError) *)
+Definition catches_unicode_and_lookup : catch_rule := fun x => match x with ExValue => false | _ => true end.
+(* BEFORE 22e8a9e1 (regression sentinel): except UnicodeDecodeError *)
+Definition catches_decode_error_only : catch_rule := fun _ => false.
+Definition text_raises_gen (c : catch_rule) (i : inter) : bool :=
+  match text_exn_of i with Some x => negb (c x) | None => false end.
+Definition text_raises : inter -> bool := text_raises_gen catches_unicode_and_lookup.
+Definition bad_ids_gen (c : catch_rule) (e : sf_event) : list N := map i_id (filter (text_raises_gen c) (sf_inters e)).
 Inductive abort := AbortKey (l : label) | AbortText (case_id : N).
 Inductive jresult_ev := Aborted (a : abort) | RunningEv (s : stat) (t : tcases) (w : option tcases) (bad : list N).
 Definition lift_ev (bad : list N) (r : jresult) : jresult_ev :=
   match r with Crash l => Aborted (AbortKey l) | Running s t w => RunningEv s t w bad end.
 
-Definition junit_step_ev (fwd : forward_rule) (s : stat) (t : tcases) (w : option tcases) (bad : list N) (e : fevent) : jresult_ev :=
+Definition junit_step_ev_c (c : catch_rule) (fwd : forward_rule) (s : stat) (t : tcases) (w : option tcases) (bad : list N) (e : fevent) : jresult_ev :=
   match e with
   | FScenario e' =>
-    let bad1 := bad ++ bad_ids e' in
+    let bad1 := bad ++ bad_ids_gen c e' in
     if fwd e' then
       match sf_status e' with
       | StFailure =>
@@ -941,20 +966,29 @@ Definition junit_step_ev (fwd : forward_rule) (s : stat) (t : tcases) (w : optio
     else RunningEv (on_scenario_finished s (recorder_of e')) t w bad1
   | _ => lift_ev bad (junit_step false s t w (jevent_of e))
   end.
-Fixpoint junit_from_ev (fwd : forward_rule) (s : stat) (t : tcases) (w : option tcases) (bad : list N) (h : list fevent) : jresult_ev :=
+Fixpoint junit_from_ev_c (c : catch_rule) (fwd : forward_rule) (s : stat) (t : tcases) (w : option tcases) (bad : list N) (h : list fevent) : jresult_ev :=
   match h with
   | [] => RunningEv s t w bad
   | e :: h' =>
-    match junit_step_ev fwd s t w bad e with
+    match junit_step_ev_c c fwd s t w bad e with
     | Aborted a => Aborted a
-    | RunningEv s1 t1 w1 bad1 => junit_from_ev fwd s1 t1 w1 bad1 h'
+    | RunningEv s1 t1 w1 bad1 => junit_from_ev_c c fwd s1 t1 w1 bad1 h'
     end
   end.
-Definition junit_run_ev_gen (fwd : forward_rule) (h : list fevent) : jresult_ev := junit_from_ev fwd stat0 [] None [] h.
+Definition junit_run_ev_c (c : catch_rule) (fwd : forward_rule) (h : list fevent) : jresult_ev := junit_from_ev_c c fwd stat0 [] None [] h.
+(* the code as it is: the except clause of 22e8a9e1, every event forwarded *)
+Definition junit_run_ev_gen (fwd : forward_rule) (h : list fevent) : jresult_ev := junit_run_ev_c catches_unicode_and_lookup fwd h.
 Definition junit_run_ev : list fevent -> jresult_ev := junit_run_ev_gen forward_all.
-(* region: every response text that could be rendered can be decoded (or fails with UnicodeDecodeError, which is caught) *)
-Definition texts_decodable (h : list fevent) : bool :=
-  forallb (fun e => match e with FScenario e => forallb (fun i => negb (text_raises i)) (sf_inters e) | _ => true end) h.
+(* sentinel: the handler with the except clause it had before 22e8a9e1 *)
+Definition junit_run_ev_old : list fevent -> jresult_ev := junit_run_ev_c catches_decode_error_only forward_all.
+(* region, per catch rule: no response text that could be rendered raises something the rule lets through *)
+Definition texts_decodable_c (c : catch_rule) (h : list fevent) : bool :=
+  forallb (fun e => match e with FScenario e => forallb (fun i => negb (text_raises_gen c i)) (sf_inters e) | _ => true end) h.
+(* region of the code as it is: no response with a non-empty payload whose charset name carries a NUL character
+   (unknown charsets and raising codecs are INSIDE since 22e8a9e1) *)
+Definition texts_decodable : list fevent -> bool := texts_decodable_c catches_unicode_and_lookup.
+(* region of the old handler: every charset is one Python decodes with (or fails with UnicodeDecodeError) *)
+Definition texts_decodable_old : list fevent -> bool := texts_decodable_c catches_decode_error_only.
 (* recorder labels of the FAILURE-status events, whatever their other attributes *)
 Fixpoint failure_labels_ev (h : list fevent) : list label :=
   match h with
@@ -966,5 +1000,5 @@ Fixpoint failure_labels_ev (h : list fevent) : list label :=
 (* region for the VCR writer over full events *)
 Definition no_raising_codec_ev (h : list fevent) : bool :=
   forallb (fun e => match e with
-                    | FScenario e => forallb (fun i => match i_codec i with CodecRaises => false | _ => true end) (sf_inters e)
+                    | FScenario e => forallb (fun i => match i_codec i with CodecRaises | CodecBadName => false | _ => true end) (sf_inters e)
                     | _ => true end) h.
